@@ -20,6 +20,7 @@ import Proofs.EndToEndGrid
 import Proofs.EndToEndText
 import Props.C03
 import Proofs.ProxySrc
+import Proofs.SubsetAny
 namespace Pydap.C02
 open Pydap
 
@@ -485,6 +486,87 @@ example : E2E.TextOk (E2E.answerDs "ds".toList "a".toList ["m0".toList] .int16 [
   exact ⟨by decide, by decide⟩
 example : Dds.NameOk "ds".toList ∧ Dds.NameOk "a".toList ∧ Dds.NameOk "m0".toList :=
   ⟨⟨by decide, by decide⟩, ⟨by decide, by decide⟩, ⟨by decide, by decide⟩⟩
+
+/-! ### the property's first two sentences as ONE statement over every basic index (round 7)
+
+  `AtMostOneEll idx` is numpy's own condition on a tuple of integers, slices and `Ellipsis` (a second `Ellipsis` is an
+  `IndexError`); `explicitAxes idx ≤ rank` likewise (more entries than axes is an `IndexError`); `npExpandIdx` is numpy's
+  expansion (the tuple split at its Ellipsis, C03's `npExpand`).  `ValidList … (npExpandIdx …)` is the property's domain:
+  every URL hyperslab non-negative with step ≥ 1, every entry relative to the PRE-SLICED axis an integer in `[-L, L)` or a
+  slice with bounds ≥ `-L` (no upper bound), step ≥ 1, and a non-empty selection.  The theorem replaces the four
+  case-split statements `C02_index(_ellipsis)`, `C02_preconstraint(_ellipsis)`, `C02_e2e_array(_ellipsis)` as the
+  carrier of the clause (they are kept: DESIGN/MANIFEST name them, and they are its two cases). -/
+
+/-- **Remote subsetting = numpy indexing, every basic index, with or without a hyperslab in the URL**: for every DAP2
+    type, shape, values, URL pre-constraint (any strides) and every index tuple of integers, slices and at most one
+    Ellipsis (short tuples included) in the property's domain — (1) the source positions the server's answer holds are
+    numpy's, axis by axis, an integer entry keeping its axis with the single position it addresses; (2) the client
+    decodes exactly numpy's `source[pre][idx]` with integer axes kept — shape and values — and nothing is left unread. -/
+theorem C02_remote_subsetting (ty : Xdr.Ty) (shape : List Nat) (vals : List Xdr.Val) (pre : List PSlice)
+    (idx : List Idx) (hw : E2E.WFArr ty shape vals) (hpl : pre.length ≤ shape.length)
+    (h1 : AtMostOneEll idx) (hl : explicitAxes idx ≤ shape.length)
+    (hv : ValidList shape (padPre pre shape.length) (npExpandIdx idx shape.length)) :
+    (∃ R, remoteIndex shape pre idx = .ok R ∧
+      R.map (List.map some) = specList shape (padPre pre shape.length) (npExpandIdx idx shape.length)) ∧
+    (∃ cshape vs,
+      E2E.numpyIndex shape vals (padPre pre shape.length) (npExpandIdx idx shape.length) = some (cshape, vs) ∧
+      E2E.fetchArray ty shape vals pre idx = .ok (E2E.dataOf cshape vs, [])) := by
+  rcases basic_cases idx h1 with ⟨h2, he, hne, hx⟩ | ⟨a, b, hs, he, ha, hb, hx⟩
+  · have hE : npExpandIdx idx shape.length = npExpand idx none shape.length := by
+      unfold npExpandIdx; rw [h2, ← he]
+    rw [hE] at hv ⊢
+    rw [hx] at hl
+    exact ⟨C02_preconstraint shape pre idx hpl hne hl hv, C02_e2e_array ty shape vals pre idx hw hpl hne hl hv⟩
+  · have hE : npExpandIdx idx shape.length = npExpand a (some b) shape.length := by
+      unfold npExpandIdx; rw [hs]
+    rw [hE] at hv ⊢
+    rw [hx] at hl
+    rw [he]
+    exact ⟨C02_preconstraint_ellipsis shape pre a b hpl ha hb hl hv,
+      C02_e2e_array_ellipsis ty shape vals pre a b hw hpl ha hb hl hv⟩
+
+/-- **every integer entry keeps its axis with length one, every slice entry has numpy's length** — the shape the
+    client sees, read off the same statement: axis `j` of the answer has as many positions as numpy's selection of
+    entry `j` on the pre-sliced axis (1 for an integer). -/
+theorem C02_answer_shape (shape : List Nat) (pre : List PSlice) (idx : List Idx)
+    (hpl : pre.length ≤ shape.length) (h1 : AtMostOneEll idx) (hl : explicitAxes idx ≤ shape.length)
+    (hv : ValidList shape (padPre pre shape.length) (npExpandIdx idx shape.length)) :
+    ∃ R, remoteIndex shape pre idx = .ok R ∧
+      R.map List.length = (specList shape (padPre pre shape.length) (npExpandIdx idx shape.length)).map List.length := by
+  rcases basic_cases idx h1 with ⟨h2, he, hne, hx⟩ | ⟨a, b, hs, he, ha, hb, hx⟩
+  · have hE : npExpandIdx idx shape.length = npExpand idx none shape.length := by
+      unfold npExpandIdx; rw [h2, ← he]
+    rw [hE] at hv ⊢
+    rw [hx] at hl
+    obtain ⟨R, hR, hS⟩ := C02_preconstraint shape pre idx hpl hne hl hv
+    exact ⟨R, hR, by rw [← hS]; simp [Function.comp_def]⟩
+  · have hE : npExpandIdx idx shape.length = npExpand a (some b) shape.length := by
+      unfold npExpandIdx; rw [hs]
+    rw [hE] at hv ⊢
+    rw [hx] at hl
+    rw [he]
+    obtain ⟨R, hR, hS⟩ := C02_preconstraint_ellipsis shape pre a b hpl ha hb hl hv
+    exact ⟨R, hR, by rw [← hS]; simp [Function.comp_def]⟩
+
+/-- non-vacuity of the composed statement: `x[..., -1]` and `x[1]` and `x[0, ..., ::2]` are basic indices; two
+    Ellipses are not; numpy's expansion on rank 3 -/
+example : AtMostOneEll [Idx.ell, Idx.int (-1)] ∧ AtMostOneEll [Idx.int 1] ∧
+    AtMostOneEll [Idx.int 0, Idx.ell, Idx.sl ⟨none, none, some 2⟩] ∧ ¬ AtMostOneEll [Idx.ell, Idx.ell] ∧
+    explicitAxes [Idx.int 0, Idx.ell, Idx.sl ⟨none, none, some 2⟩] = 2 ∧
+    npExpandIdx [Idx.int 0, Idx.ell, Idx.sl ⟨none, none, some 2⟩] 3
+      = [Idx.int 0, Idx.sl PSlice.all, Idx.sl ⟨none, none, some 2⟩] ∧
+    npExpandIdx [Idx.int 1] 3 = [Idx.int 1, Idx.sl PSlice.all, Idx.sl PSlice.all] := by
+  refine ⟨?_, ?_, ?_, ?_, rfl, rfl, rfl⟩
+  · intro b hb; simp [splitEll] at hb; subst hb; intro x hx; simp at hx; subst hx; simp
+  · intro b hb; simp [splitEll] at hb
+  · intro b hb; simp [splitEll] at hb; subst hb; intro x hx; simp at hx; subst hx; simp
+  · intro h; exact h [Idx.ell] rfl Idx.ell (by simp) rfl
+/-- … and the rank-3 example above (`x[..., -1]`, stride in the URL on the last axis) is in its domain -/
+example : ValidList [2, 3, 6] (padPre [PSlice.all, PSlice.all, ⟨some 1, some 6, some 2⟩] 3)
+    (npExpandIdx [Idx.ell, Idx.int (-1)] 3) := by
+  refine ⟨nonNeg_all, ⟨by simp [PSlice.all], by simp [PSlice.all], by simp [PSlice.all], by decide⟩,
+    nonNeg_all, ⟨by simp [PSlice.all], by simp [PSlice.all], by simp [PSlice.all], by decide⟩,
+    ⟨by simp, by simp, by simp⟩, ⟨by decide, by decide⟩, trivial⟩
 
 /-! ### the tie by translation: the *source text* of `pad_hyperslab` and of the projection `BaseProxyDap2.__getitem__` sends
 
